@@ -1,11 +1,189 @@
 import HickoryVerif.Drv.Proto
+import HickoryVerif.Model.AuthZone
+import HickoryVerif.Model.AuthZoneDev
+import HickoryVerif.Model.AuthZoneSigned
+import HickoryVerif.Model.AuthZoneSignedDev
 
+/-!
+Case line (see `harness/src/props/c10.rs`):  `q <mode> <origin> <zone> <qname> <qtype> <do>`
+answer: `<RCODE> aa=<0|1> an=<rrsets> ns=<rrsets> ar=<rrsets>`.
+-/
 namespace HickoryVerif.Drv.C10
-open HickoryVerif HickoryVerif.Drv
+open HickoryVerif HickoryVerif.Drv HickoryVerif.AuthZone HickoryVerif.AuthZone.Dev HickoryVerif.Spec.Rfc1034
 
 abbrev State := Unit
 def init : State := ()
 
-def step (s : State) (_toks : List String) : State × String := (s, "bad-op")
+def tyTable : List (String × Nat) :=
+  [("A", T_A), ("NS", T_NS), ("CNAME", T_CNAME), ("SOA", T_SOA), ("MX", T_MX), ("TXT", T_TXT),
+   ("AAAA", T_AAAA), ("DS", T_DS), ("ANY", T_ANY), ("RRSIG", T_RRSIG), ("NSEC", T_NSEC),
+   ("DNSKEY", T_DNSKEY)]
+
+def parseTy (s : String) : Option Nat := (tyTable.find? (·.1 == s)).map (·.2)
+
+def showTy (t : Nat) : String :=
+  match tyTable.find? (·.2 == t) with
+  | some (s, _) => s
+  | none => "TYPE" ++ toString t
+
+/-- `a.b.example.` → labels (bytes); `.` is the root -/
+def parseLName (s : String) : Option LName :=
+  if s == "." then some []
+  else
+    let parts := s.splitOn "."
+    match parts.getLast? with
+    | some "" =>
+      let ls := parts.dropLast
+      if ls.any (·.isEmpty) then none else some (ls.map fun l => l.toList.map Char.toNat)
+    | _ => none
+
+def showLName (n : LName) : String :=
+  if n.isEmpty then "." else
+  String.join (n.map fun l => String.ofList (l.map Char.ofNat) ++ ".")
+
+def parseRdCore (s : String) : Option RData :=
+  match s.splitOn "@" with
+  | [t] => do pure { tag := ← t.toNat?, target := none }
+  | [t, n] => do pure { tag := ← t.toNat?, target := some (← parseLName n) }
+  | _ => none
+
+/-- `<tag>[@<target>][~T1,T2,…]` -/
+def parseRd (s : String) : Option RData :=
+  match s.splitOn "~" with
+  | [c] => parseRdCore c
+  | [c, tys] => do
+    let r ← parseRdCore c
+    let tys ← (tys.splitOn ",").mapM parseTy
+    pure { r with types := tys }
+  | _ => none
+
+/-- `<owner>/<TYPE>/<rd>+<rd>…[/s<labels>]` -/
+def parseRRset (s : String) : Option RRset :=
+  match s.splitOn "/" with
+  | [n, t, rds] => do
+    let rds ← (rds.splitOn "+").mapM parseRd
+    pure { name := ← parseLName n, type := ← parseTy t, rdatas := rds }
+  | [n, t, rds, sg] => do
+    let rds ← (rds.splitOn "+").mapM parseRd
+    let l ← match sg.toList with
+      | 's' :: ds => (String.ofList ds).toNat?
+      | _ => none
+    pure { name := ← parseLName n, type := ← parseTy t, rdatas := rds, sigLabels := some l }
+  | _ => none
+
+def parseZone (s : String) : Option Zone :=
+  if s == "-" then some [] else (s.splitOn ";").mapM parseRRset
+
+def showRd (r : RData) : String :=
+  match r.target with
+  | some t => toString r.tag ++ "@" ++ showLName t
+  | none => toString r.tag
+
+def showRRset (r : RRset) : String :=
+  showLName r.name ++ "/" ++ showTy r.type ++ "/" ++
+    (if r.type == T_NSEC then
+      "+".intercalate (r.rdatas.map fun rd =>
+        showLName (rd.target.getD []) ++ ":" ++ ",".intercalate (rd.types.map showTy))
+    else "+".intercalate (r.rdatas.map showRd))
+
+/-- with the DO bit every RRset is followed by its RRSIGs (`rrset_with_rrigs`) -/
+def showRRsetS (dnssecOk : Bool) (r : RRset) : String :=
+  match dnssecOk, r.sigLabels with
+  | true, some l =>
+    showRRset r ++ ";" ++ showLName r.name ++ "/RRSIG/" ++ showTy r.type ++ "." ++ toString l
+  | _, _ => showRRset r
+
+def showSectionS (dnssecOk : Bool) (l : List RRset) : String :=
+  if l.isEmpty then "-" else ";".intercalate (l.map (showRRsetS dnssecOk))
+
+def showSection (l : List RRset) : String := showSectionS false l
+
+def showRcode : Rcode → String
+  | .noError => "NOERROR"
+  | .nxDomain => "NXDOMAIN"
+  | .refused => "REFUSED"
+
+def showResponseS (dnssecOk : Bool) (r : Response) : String :=
+  showRcode r.rcode ++ " aa=" ++ showBool r.aa ++ " an=" ++ showSectionS dnssecOk r.answers ++
+    " ns=" ++ showSectionS dnssecOk r.authority ++ " ar=" ++ showSectionS dnssecOk r.additional
+
+def showResponse (r : Response) : String :=
+  showRcode r.rcode ++ " aa=" ++ showBool r.aa ++ " an=" ++ showSection r.answers ++
+    " ns=" ++ showSection r.authority ++ " ar=" ++ showSection r.additional
+
+/-- classes of `Model/AuthZoneDev.lean` that hold of the case, in a fixed order -/
+def classesOf (z : Zone) (o : LName) (q : Query) : List String :=
+  let t := effType z q
+  let vs := visitedOf z o q
+  let per (f : Zone → LName → LName → Nat → Bool) := vs.any fun n => f z o n t
+  (if per existingNoBlock then ["existing-name-does-not-block"] else []) ++
+  (if per climbs then ["climbs-past-closest-encloser"] else []) ++
+  (if per notSelfBlocking then ["wildcard-not-self-blocking"] else []) ++
+  (if nodataAsNx z o q.name t then ["nodata-as-nxdomain"] else []) ++
+  (if per wildcardQname then ["wildcard-qname-not-expanded"] else []) ++
+  (if NestedCut z o q then ["nested-cut"] else []) ++
+  (if cnameIntoCut z o q then ["cname-into-cut"] else []) ++
+  (if anyNotAtOwner z q then ["any-not-at-owner"] else [])
+
+/-- the statements of `C10.impl_eq_spec_partial` and `C10.aa_correct_partial` evaluated on the case -/
+def thmHolds (z : Zone) (o : LName) (q : Query) : Bool :=
+  let hyps := zoneWF z o && !WildcardGap z o q && !NestedCut z o q &&
+    !cnameIntoCut z o q && !anyNotAtOwner z q
+  let hypsAA := zoneWF z o && !wildcardGapAt z o q.name (effType z q) && !anyNotAtOwner z q
+  (!hyps || conforms (answerImpl z o q) (answerSpec MAX_CNAME_DEPTH z o q)) &&
+  (!hypsAA || (answerImpl z o q).aa == (answerSpec MAX_CNAME_DEPTH z o q).aa)
+
+/-- classes of `Model/AuthZoneSignedDev.lean` (DO=1 on an NSEC-signed zone) -/
+def signedClassesOf (z : Zone) (o : LName) (q : Query) : List String :=
+  (if SDev.soaQueryWildcardNoProof z o q then ["soa-query-wildcard-no-proof"] else []) ++
+  (if SDev.wildcardExpansionNotProven z o q then ["wildcard-expansion-not-proven"] else [])
+
+def handle (toks : List String) : Option String :=
+  match toks with
+  | ["dev", "n", origin, _zone, qname, qtype, dok, store] => do
+    let o ← parseLName origin
+    let z ← parseZone store
+    let qn ← parseLName qname
+    let qt ← parseTy qtype
+    let q : Query := { name := lowerName qn, type := qt }
+    let cs := if dok == "1" then signedClassesOf z o q else []
+    pure ("signed=" ++ showBool (SDev.allSigned z) ++ " sclasses=" ++ (if cs.isEmpty then "-" else ",".intercalate cs))
+  | ["dev", "u", origin, zone, qname, qtype, _do] => do
+    let o ← parseLName origin
+    let z ← parseZone zone
+    let qn ← parseLName qname
+    let qt ← parseTy qtype
+    let q : Query := { name := lowerName qn, type := qt }
+    let cs := classesOf z o q
+    pure ("wf=" ++ showBool (zoneWF z o) ++ " classes=" ++ (if cs.isEmpty then "-" else ",".intercalate cs) ++
+      " thm=" ++ (if thmHolds z o q then "ok" else "FAIL"))
+  | ["devx", "u", origin, zone, qname, qtype, _do] => do
+    -- debugging aid (not used by the harness): classes + whether the model conforms to the spec
+    let o ← parseLName origin
+    let z ← parseZone zone
+    let qn ← parseLName qname
+    let qt ← parseTy qtype
+    let q : Query := { name := lowerName qn, type := qt }
+    let cs := classesOf z o q
+    pure ("wf=" ++ showBool (zoneWF z o) ++ " classes=" ++ (if cs.isEmpty then "-" else ",".intercalate cs) ++
+      " conf=" ++ showBool (conformsModAA (answerImpl z o q) (answerSpec MAX_CNAME_DEPTH z o q)) ++
+      " aa=" ++ showBool ((answerImpl z o q).aa == (answerSpec MAX_CNAME_DEPTH z o q).aa))
+  | ["q", "n", origin, _zone, qname, qtype, dok, store] => do
+    let origin ← parseLName origin
+    let z ← parseZone store
+    let qn ← parseLName qname
+    let qt ← parseTy qtype
+    let dok := dok == "1"
+    pure (showResponseS dok (respondS z origin { name := lowerName qn, type := qt } dok true))
+  | ["q", "u", origin, zone, qname, qtype, _do] => do
+    let origin ← parseLName origin
+    let z ← parseZone zone
+    let qn ← parseLName qname
+    let qt ← parseTy qtype
+    pure (showResponse (respond z origin { name := lowerName qn, type := qt }))
+  | _ => none
+
+def step (s : State) (toks : List String) : State × String :=
+  (s, (handle toks).getD "bad-op")
 
 end HickoryVerif.Drv.C10
